@@ -157,6 +157,8 @@ def s_subst_var(ss, x, r, lhs_too=False):
                         s_subst_var(s[5], x, r, lhs_too)))
         elif k == "print":
             out.append(("print", [e_subst_var(i, x, r) for i in s[1]]))
+        elif k == "call":
+            out.append(("call", s[1], [e_subst_var(i, x, r) for i in s[2]]))
         elif k in ("region", "dir"):
             out.append((k, s[1], s_subst_var(s[2], x, r, lhs_too)))
         else:
@@ -209,6 +211,18 @@ def acc_stmt(s, path, out):
     elif k == "print":
         for x in s[1]:
             acc_expr(x, out)
+    elif k == "call":
+        # Call.reference_accesses: a Reference argument is READWRITE (routine not known to be pure), recorded
+        # before the reads of its index expressions; other arguments are walked as expressions
+        for a in s[2]:
+            if a[0] == "var":
+                out.append((a[1], "RW", None, None))
+            elif a[0] == "idx":
+                out.append((a[1], "RW", a[2], None))
+                for x in a[2]:
+                    acc_expr(x, out)
+            else:
+                acc_expr(a, out)
     elif k in ("region", "dir"):
         acc_block(s[2], path, out)
     # exit / cycle (CodeBlocks without names) and return: no accesses
@@ -229,7 +243,7 @@ def by_name(accs):
 
 
 def written(al):
-    return any(a[1] == "W" for a in al)
+    return any(a[1] in ("W", "RW") for a in al)
 
 
 def read_only(al):
@@ -257,6 +271,10 @@ def wnames(ss, acc=None):
             acc.add(s[1])
         elif s[0] == "do":
             acc.add(s[1])
+        elif s[0] == "call":
+            for a in s[2]:
+                if a[0] in ("var", "idx"):
+                    acc.add(a[1])
         for _, blk in sub_blocks(s):
             wnames(blk, acc)
     return acc
@@ -372,6 +390,8 @@ def fuse_reasons(p, path1, path2, arrays):
     n1, n2 = all_names(b1), all_names(b2)
     if (w1 & n2) or (w2 & n1) or ((w1 | w2) & (hdr | {v1})) or v1 in hdr:
         out.append("bodies-share-written-names")
+    if has_kind(b1, ("call",)) or has_kind(b2, ("call",)):
+        out.append("call-in-body")          # outside fuse_safe (the Coq syntax has no calls)
     return out
 
 
@@ -413,6 +433,8 @@ def m_swap_validate(p, path):
         raise Refuse("codeblock")
     if not outer[5]:
         raise Refuse("empty-body")
+    if outer[5][0][0] == "do" and len(outer[5]) == 1 and has_kind([outer], ("call",)):
+        raise Refuse("impure-call")
     inner = outer[5][0]
     if inner[0] != "do":
         raise Refuse("first-statement-not-a-loop")
@@ -442,7 +464,7 @@ def element_private(body, v1, v2, arrays, hdr_names):
     straight-line assignments / ifs, no scalar written, every written array always accessed with one and the
     same subscript tuple that has an injective subscript in v1 and another in v2, loop variables and header
     names not written."""
-    if has_kind(body, ("do",) + CTRL + ("print",)):
+    if has_kind(body, ("do", "call") + CTRL + ("print",)):
         return False
     accs = by_name(acc_block(body, (), []))
     w = wnames(body)
@@ -595,7 +617,7 @@ def m_hoist(p, path):
     instmt = by_name(sacc)
     for nm in instmt:
         if written(instmt[nm]):
-            if any(a[1] == "R" for a in instmt[nm]):
+            if any(a[1] in ("R", "RW") for a in instmt[nm]):
                 raise Refuse("read-and-written")
             first = instmt[nm][0]
             before = False
